@@ -205,6 +205,10 @@ class Gen:
             c["_toolspell"] = "shell" if c.get("_toolspell") == "clang" else "clang"; c["_relreads"] = False
             c["_spell"] = dict(c["_spell"], deps="scalar")
             return (d, "toolswitch") if self.well_formed(d) else (copy.deepcopy(desc), "none")
+        plain = [x for x in shells if d["cmds"][x].get("_toolspell") != "clang"]
+        if plain and self.r3.random() < (0.12 if self.focus == "C09" else 0.04):       # inherit-env alone (with or without an env map)
+            n = self.r3.choice(plain); d["cmds"][n]["_inherit_env"] = not d["cmds"][n]["_inherit_env"]
+            return d, "inherit"
         c = d["cmds"].get(n)
         if c is not None and c.get("_toolspell") == "clang" and k in ("env", "argenv", "depstyle", "signature"): k = "tag"    # (not expressible with the clang tool)
         if k == "tag":
